@@ -164,4 +164,33 @@ func init() {
 			})
 		},
 	})
+	register(&propDef{
+		ID: "C11",
+		Explanation: "reset: the per-cycle state of Morass is computed as the fields written by Push, write, Finalise, Pull and their package-local callees (pos, len, fast, chunk, files, _err). For each such field, either Clear stores it on every path to its `return nil` (must-pass over the SSA CFG; the comm-clause assignment of a select counts only for its branch), or Finalise stores it on every path before reading it and Push/write never read it. Otherwise a value from the previous cycle survives Clear.",
+		NotDecided:  "sortedness, multiset equality, Pos/Len arithmetic (value-level).",
+		Assumptions: []string{"the API protocol: Push* Finalise Pull* Clear per cycle"},
+		Run: func(c *Ctx) {
+			c.guard("reset", func() { ruleReset(c, "reset"); c.floor("reset", 6) })
+		},
+	})
+	register(&propDef{
+		ID: "C12",
+		Explanation: "gojoin: for every go statement in package morass whose spawned function (transitively) writes Morass fields that Finalise reads, a sync.WaitGroup field joins it: Add dominates the go statement, the spawned function defers Done in its entry block, Wait dominates every read of the shared fields in Finalise, and err() is consulted on every path from Wait to `return nil`. lockset: in all code reachable from the background writer (and in setErr/err) every access to files holds filesLock and every access to _err holds errLock (must-hold lockset dataflow over the SSA CFG).",
+		NotDecided:  "absence of every data race (no happens-before model of channels beyond these idioms), deadlock freedom of the pool/writable protocol.",
+		Assumptions: []string{"Pull and Clear run after Finalise returned (the API protocol), so their unlocked accesses are ordered after the join", "sync.WaitGroup / sync.Mutex semantics"},
+		Run: func(c *Ctx) {
+			c.guard("gojoin", func() { ruleMorassJoin(c, "gojoin"); c.floor("gojoin", 1) })
+			c.guard("lockset", func() { ruleMorassLockset(c, "lockset"); c.floor("lockset", 4) })
+		},
+	})
+	register(&propDef{
+		ID: "C13",
+		Explanation: "errslot/sticky: outside Clear/New every setErr call stores a value proven non-nil by a dominating `x != nil` test (or setErr only stores into an empty slot), so a later success cannot erase a recorded error. errslot/propagate: the error result of every ioutil.TempFile / gob Encode / Decode / os.File Sync / Seek call flows to a return or to setErr, and Push and Finalise consult err() on every path to `return nil`. residue: every end-of-data branch of Pull (assignment of io.EOF) is dominated by a test of AutoClear and by a test of AutoClean; CleanUp calls os.RemoveAll(m.dir).",
+		NotDecided:  "that the delivered values are right after a fault; Close/Remove errors (not in the property's list); what the AutoClear/AutoClean branches remove (value-level).",
+		Assumptions: []string{"an error that reaches a return or the slot is reported by a subsequent Push/Finalise/Pull"},
+		Run: func(c *Ctx) {
+			c.guard("errslot", func() { ruleErrSlot(c, "errslot"); c.floor("errslot/sticky", 3); c.floor("errslot/propagate", 6+2) })
+			c.guard("residue", func() { ruleResidue(c, "residue"); c.floor("residue", 5) })
+		},
+	})
 }
